@@ -421,6 +421,7 @@ class Session:
         elif kind == "freeze":
             ln = self.emit(op)
             self.frozen = True
+            self.ever_frozen = True
             impl = ln["impl"]
             self.snapshot = (ml.canon_defs(impl["defs"]), ml.canon_sup(impl["sup"]))
             return
@@ -633,6 +634,9 @@ class Session:
                     known = "D1" if (cyc2 and k in trig) else None
                     self.fail("C01", "stale", {"assigned": p, "location": q, "got": repr(got), "want": repr(want),
                                                "declared_cycle_in_triggered_set": bool(cyc2)}, known)
+                    if known is None and getattr(self, "ever_frozen", False) and not self.frozen:
+                        # "after unfreeze_tree() the manager behaves as if it had never been frozen"
+                        self.fail("C17", "stale-after-unfreeze", {"assigned": p, "location": q, "got": repr(got), "want": repr(want)})
                     self.c01_live = False
                     return
         for k, v in mirror.plain.items():
